@@ -1,34 +1,35 @@
 #!/bin/bash
 # Evaluate seeded mutations without touching /repo (agents are working against it):
 #   tools/eval_mutation.sh <property id> <patch file> [more check ids...]
-# Uses a private copy of /verif (/tmp/veval) whose harness links a private worktree of /repo (/tmp/mutrepo).
+# Uses a private copy of /verif ($VE) whose harness links a private worktree of /repo ($MR).
 set -u
 PID=$1; PATCH=$2; shift 2
 IDS="$PID $*"
-if [ ! -d /tmp/mutrepo ]; then git -C /repo worktree add -q --detach /tmp/mutrepo HEAD; fi
-git -C /tmp/mutrepo checkout -q --detach $(git -C /repo rev-parse HEAD) 2>/dev/null
-git -C /tmp/mutrepo checkout -q -- . ; git -C /tmp/mutrepo clean -fdq
-mkdir -p /tmp/veval
+VE=${VEVAL:-/tmp/veval}; MR=${MUTREPO:-/tmp/mutrepo}
+if [ ! -d $MR ]; then git -C /repo worktree add -q --detach $MR HEAD; fi
+git -C $MR checkout -q --detach $(git -C /repo rev-parse HEAD) 2>/dev/null
+git -C $MR checkout -q -- . ; git -C $MR clean -fdq
+mkdir -p $VE
 # NOSYNC=1: keep the private copy as it is (other work may be half-way through an edit in /verif)
-if [ "${NOSYNC:-0}" != "1" ]; then rsync -a --delete --exclude .git --exclude .build --exclude 'replays/*' /verif/ /tmp/veval/; fi
-sed -i 's|=> /repo|=> /tmp/mutrepo|' /tmp/veval/harness/go.mod
+if [ "${NOSYNC:-0}" != "1" ]; then rsync -a --delete --exclude .git --exclude .build --exclude 'replays/*' /verif/ $VE/; fi
+sed -i "s|=> /repo|=> $MR|; s|=> /tmp/mutrepo[0-9a-z]*|=> $MR|" $VE/harness/go.mod
 if [ "$PATCH" != "none" ]; then
-  git -C /tmp/mutrepo apply "$PATCH" || { echo "PATCH DOES NOT APPLY"; exit 3; }
+  git -C $MR apply "$PATCH" || { echo "PATCH DOES NOT APPLY"; exit 3; }
 fi
-cd /tmp/veval
+cd $VE
 for id in $IDS; do
-  VERIF_REPO=/tmp/mutrepo timeout 1500 ./check $id --tier quick > /tmp/veval/out_$id.txt 2>&1
+  VERIF_REPO=$MR timeout 1500 ./check $id --tier quick > $VE/out_$id.txt 2>&1
   rc=$?
   echo "== $id exit=$rc"
-  grep -E "^VIOLATION|^KNOWN-FINDING" /tmp/veval/out_$id.txt | head -5
+  grep -E "^VIOLATION|^KNOWN-FINDING" $VE/out_$id.txt | head -5
   python3 - <<PY
 import json
 try:
-    e=json.load(open('/tmp/veval/evidence/$id.json')); c=e['coverage']
+    e=json.load(open('$VE/evidence/$id.json')); c=e['coverage']
     print("   discharged %s/%s  model_ne_impl=%s impl_ne_spec=%s broken=%s" % (c.get('discharged'),c.get('obligations'),c.get('model_ne_impl'),c.get('impl_ne_spec'),c.get('broken_obligations')))
 except Exception as ex: print("   no evidence", ex)
 PY
-  for f in $(grep -oE "replay=[^ ]+" /tmp/veval/out_$id.txt | head -2 | cut -d= -f2); do python3 -c "
-import json; b=json.load(open('/tmp/veval/$f')); print('   replay:', {k:(str(v)[:160]) for k,v in b.items() if k in ('kind','suite','case','expected','observed','obligation')})"; done
+  for f in $(grep -oE "replay=[^ ]+" $VE/out_$id.txt | head -2 | cut -d= -f2); do python3 -c "
+import json; b=json.load(open('$VE/$f')); print('   replay:', {k:(str(v)[:160]) for k,v in b.items() if k in ('kind','suite','case','expected','observed','obligation')})"; done
 done
-git -C /tmp/mutrepo checkout -q -- . ; git -C /tmp/mutrepo clean -fdq
+git -C $MR checkout -q -- . ; git -C $MR clean -fdq
